@@ -359,7 +359,10 @@ def record(st, cfg, tree, problems, seen_pre, limit=400):
     for kind, key, detail in problems:
         st.count("raw_" + kind)
         top = tree.kids[0].tag if tree.kids else ""
-        pre = (kind, key, cfg["lang"]) if kind.endswith("-fails") else (kind, key, cfg["lang"], top)
+        nums = [n.text or "" for n, _ in tree.walk() if n.kids is None and n.tag == "mn"]
+        # how the numbers are written is part of the cheap key: rules that test for a decimal mark fail for one spelling and not the other
+        numfmt = ("." if any("." in t for t in nums) else "") + ("," if any("," in t for t in nums) else "")
+        pre = (kind, key, cfg["lang"], cfg["style"], numfmt) if kind.endswith("-fails") else (kind, key, cfg["lang"], top)
         if pre in seen_pre:
             continue
         seen_pre.add(pre)
@@ -368,7 +371,7 @@ def record(st, cfg, tree, problems, seen_pre, limit=400):
             # the cluster is the default configuration's
             dflt = dict(DEFAULT_CFG, braille=cfg["braille"])
             if reproduces(dflt, tree, kind, key):
-                pre = (kind, key, "en") if kind.endswith("-fails") else (kind, key, "en", top)
+                pre = (kind, key, "en", "", numfmt) if kind.endswith("-fails") else (kind, key, "en", top)
                 if pre in seen_pre:
                     continue
                 seen_pre.add(pre)
@@ -527,7 +530,11 @@ def run_config(st, unit, fixed, harvested, seen_pre, deadline):
             batch = []
             for _ in range(40):
                 feats = rng.choices(list(weights), weights=list(weights.values()), k=3)
-                tb = gen.Textbook(rng, decimal=decimal, max_depth=rng.choice([2, 3, 4]), p_ident=0.5, features=feats)
+                # mostly the session's own decimal mark, sometimes the other one (a document need not follow the listener's locale)
+                mark = decimal if rng.random() < 0.7 else ("," if decimal == "." else ".")
+                tb = gen.Textbook(rng, decimal=mark, max_depth=rng.choice([2, 3, 4]), p_ident=0.5, features=feats)
+                if mark != decimal:
+                    st.count("textbook_samples_with_the_other_decimal_mark")
                 batch.append((tb.expression()[0], feats))
             done += len(batch)
             new_total = 0
@@ -1089,6 +1096,17 @@ def switch_chains(seed, n_chains, length):
             if len(part) >= 2 and len(chains) < n_chains:
                 chains.append(part)
     return chains
+
+
+def pred_decimal_comma_numbers(v, params):
+    """Known finding C15-decimal-comma-common-fraction is about numbers written with the decimal COMMA (the rule files test for '.'):
+    the minimal witness has an mn containing ',' and no mn containing '.'"""
+    tree = gen.from_xml(v["witness"]["mathml"])
+    nums = [n.text or "" for n, _ in tree.walk() if n.kids is None and n.tag == "mn"]
+    return any("," in t for t in nums) and not any("." in t for t in nums)
+
+
+core.PREDICATES["c15_decimal_comma_numbers"] = pred_decimal_comma_numbers
 
 
 def pred_char_not_in_braille_tables(v, params):
